@@ -111,6 +111,20 @@ def rule_magic(ctx):
 
 # --------------------------------------------------------------------------------- C06.scheme
 
+def _comm(op, a, b):
+    """Operands of a commutative operator in a fixed order, so that `m & b` and `b & m` compare equal."""
+    x, y = sorted((a, b), key=repr)
+    return (op, x, y)
+
+
+def _canon(t):
+    if isinstance(t, tuple) and t and t[0] in ("mul", "and") and len(t) == 3:
+        return _comm(t[0], _canon(t[1]), _canon(t[2]))
+    if isinstance(t, tuple):
+        return tuple(_canon(x) for x in t)
+    return t
+
+
 def norm_index(e, piece_ty):
     """Normalise an index expression of the magic scheme to a comparable shape."""
     e = mir.strip_copies(e)
@@ -123,9 +137,9 @@ def norm_index(e, piece_ty):
         if c.endswith("Shr<usize>>::shr") or c.endswith("Shr<u32>>::shr"):
             return ("shr", norm_index(e[2][0], piece_ty), norm_index(e[2][1], piece_ty))
         if c.endswith("Mul<u64>>::mul") or c.endswith("wrapping_mul") or c.endswith("ops::Mul>::mul"):
-            return ("mul", norm_index(e[2][0], piece_ty), norm_index(e[2][1], piece_ty))
+            return _comm("mul", norm_index(e[2][0], piece_ty), norm_index(e[2][1], piece_ty))
         if c.endswith("ops::BitAnd>::bitand") or c.endswith("BitAnd<u64>>::bitand"):
-            return ("and", norm_index(e[2][0], piece_ty), norm_index(e[2][1], piece_ty))
+            return _comm("and", norm_index(e[2][0], piece_ty), norm_index(e[2][1], piece_ty))
         if c.endswith("Magic::get_blockers_from_index"):
             return ("subset-of", norm_index(e[2][1], piece_ty))
         if c.endswith("Square::u8") or c.endswith("From<board::square::Square> for u8>::from"):
@@ -173,7 +187,7 @@ def rule_scheme(ctx):
                 rkey = norm_index(x[2][1], ty)
                 rtab = [y for y in walk(x[2][0]) if isinstance(y, tuple) and y[0] == "static"]
                 rrow = [y for y in walk(x[2][0]) if isinstance(y, tuple) and y[0] == "index"]
-        want = ("shr", ("mul", ("and", ("v", "blockers"), ("tbl", "MASKS", ("sq",))), ("tbl", "MAGICS", ("sq",))), ("sub", ("c", 64), ("tbl", "INDEX_BITS", ("sq",))))
+        want = _canon(("shr", ("mul", ("and", ("v", "blockers"), ("tbl", "MASKS", ("sq",))), ("tbl", "MAGICS", ("sq",))), ("sub", ("c", 64), ("tbl", "INDEX_BITS", ("sq",)))))
         ctx.check(rkey == want, "%s:reader-index" % piece, "get_attacks reads ATTACKS[sq][((blockers & MASKS[sq]) * MAGICS[sq]) >> (64 - INDEX_BITS[sq])]", rd.where(0),
                   bad_what="%s::get_attacks computes its key as %s" % (piece, rkey))
         ok_tab = rkey is not None and rtab and rtab[0][1] == "board::piece::%s::ATTACKS" % piece and rrow and norm_index(rrow[0][2], ty) == ("sq",)
@@ -188,7 +202,7 @@ def rule_scheme(ctx):
                     t = sd[2]["t"]
                     wkey = norm_index(ws.operand(t["args"][1]), ty)
                     wval = ws.rvalue(s["rv"])
-        wwant = ("shr", ("mul", ("subset-of", ("tbl", "MASKS", ("sq",))), ("tbl", "MAGICS", ("sq",))), ("sub", ("c", 64), ("tbl", "INDEX_BITS", ("sq",))))
+        wwant = _canon(("shr", ("mul", ("subset-of", ("tbl", "MASKS", ("sq",))), ("tbl", "MAGICS", ("sq",))), ("sub", ("c", 64), ("tbl", "INDEX_BITS", ("sq",)))))
         ctx.check(wkey == wwant, "%s:writer-index" % piece, "init_attacks writes row[(subset(MASKS[sq]) * MAGICS[sq]) >> (64 - INDEX_BITS[sq])]", wr.where(0),
                   bad_what="%s::init_attacks computes its index as %s (reader: %s)" % (piece, wkey, rkey))
         okv = wval is not None and wval[0] == "call" and wval[1] == impl + "::get_attacks_slow" and norm_index(wval[2][0], ty) in (("sq",), ("call", "From<u8>>::from", ("sq",))) and \
